@@ -227,16 +227,35 @@ Section Steps.
     checksig sc SegV0 k s b = CsPush true b.
   Proof. intros k s b H. unfold checksig. now rewrite (verify_nonempty _ _ H), (verify_valid _ _ H). Qed.
 
+  Lemma checksig_v0_true_inv : forall k s b b',
+    checksig sc SegV0 k s b = CsPush true b' -> verify sc k s = true.
+  Proof.
+    intros k s b b' H. unfold checksig in H. unfold verify.
+    destruct (is_nil s); [destruct (compressed_pk k); discriminate|].
+    destruct (sc k s); try discriminate; reflexivity.
+  Qed.
+
+  Lemma checksig_tap_true_inv : forall k s b b',
+    checksig sc Tapscript k s b = CsPush true b' -> verify sc k s = true.
+  Proof.
+    intros k s b b' H. unfold checksig in H. unfold verify.
+    destruct (is_nil k); [discriminate|]. destruct (is_nil s); [discriminate|].
+    destruct (b - 50 <? 0)%Z; [discriminate|].
+    destruct (sc k s); try discriminate; reflexivity.
+  Qed.
+
   Lemma checksig_tap_valid : forall k s b, verify sc k s = true -> is_nil k = false -> (50 <= b)%Z ->
     checksig sc Tapscript k s b = CsPush true (b - 50).
   Proof.
-    intros k s b H Hk Hb. unfold checksig. rewrite Hk, (verify_nonempty _ _ H), (verify_valid _ _ H).
+    clear h ver ctx. intros k s b H Hk Hb. unfold checksig. rewrite Hk, (verify_nonempty _ _ H), (verify_valid _ _ H).
     destruct (Z.ltb_spec (b - 50) 0); [lia|reflexivity].
   Qed.
 
-  Lemma checkmultisig_2of2 : forall k1 k2 s1 s2 rest,
+  Lemma checkmultisig_2of2 : forall (k1 k2 s1 s2 : bytes) (rest : list bytes),
     verify sc k1 s1 = true -> verify sc k2 s2 = true ->
-    checkmultisig sc SegV0 ([2] :: k2 :: k1 :: [2] :: s2 :: s1 :: [] :: rest) = Some (MsOk true, rest).
+    checkmultisig sc SegV0
+      (@cons bytes [2] (k2 :: k1 :: @cons bytes [2] (s2 :: s1 :: @cons bytes [] rest)))
+    = Some (MsOk true, rest).
   Proof.
     intros k1 k2 s1 s2 rest H1 H2. unfold checkmultisig, pop_int.
     change (scriptnum_dec 4 [2]) with (Some 2%Z). simpl.
@@ -262,3 +281,118 @@ Proof.
   destruct (N.ltb_spec n locktime_threshold); destruct (N.leb_spec locktime_threshold n); try lia;
   destruct (N.leb_spec n n); try lia; reflexivity.
 Qed.
+
+(* ---- symbolic execution of a script, one instruction at a time ---- *)
+Lemma run_cons_ok : forall h sc ver ctx i r s s',
+  step h sc ver ctx i s = Ok s' -> run h sc ver ctx (i :: r) s = run h sc ver ctx r s'.
+Proof. intros. cbn [run]. now rewrite H. Qed.
+
+Lemma run_cons_fail : forall h sc ver ctx i r s,
+  step h sc ver ctx i s = Fail -> run h sc ver ctx (i :: r) s = Fail.
+Proof. intros. cbn [run]. now rewrite H. Qed.
+
+Lemma run_cons_unsupp : forall h sc ver ctx i r s,
+  step h sc ver ctx i s = Unsupp -> run h sc ver ctx (i :: r) s = Unsupp.
+Proof. intros. cbn [run]. now rewrite H. Qed.
+
+Lemma accepts_eq : forall h sc ver ctx is w bud,
+  Forall (fun x => blen x <= 520) w ->
+  accepts h sc ver ctx is w bud =
+  match run h sc ver ctx is (mkSt (rev w) [] bud) with
+  | Ok s => match cnd s with
+            | [] => match stk s with [x] => as_bool x | _ => false end
+            | _ => false
+            end
+  | _ => false
+  end.
+Proof.
+  intros h sc ver ctx is w bud Hw. unfold accepts, eval.
+  assert (E : existsb (fun x => max_elem <? blen x) w = false).
+  { induction Hw as [|x l Hx _ IH]; [reflexivity|]. cbn [existsb]. rewrite IH.
+    unfold max_elem. destruct (N.ltb_spec 520 (blen x)); [lia|reflexivity]. }
+  rewrite E. destruct (run h sc ver ctx is _) as [s| |]; try reflexivity.
+  destruct (cnd s); [|reflexivity]. destruct (stk s) as [|x [|y r]]; try reflexivity.
+  destruct (as_bool x); reflexivity.
+Qed.
+
+Lemma enc_0 : scriptnum_enc 0 = []. Proof. reflexivity. Qed.
+Lemma enc_1 : scriptnum_enc 1 = [1]. Proof. reflexivity. Qed.
+Lemma enc_2 : scriptnum_enc 2 = [2]. Proof. reflexivity. Qed.
+Lemma enc_16 : scriptnum_enc 16 = [16]. Proof. reflexivity. Qed.
+Lemma enc_32 : scriptnum_enc 32 = [32]. Proof. reflexivity. Qed.
+Lemma blen_nil : blen [] = 0. Proof. reflexivity. Qed.
+
+Lemma exec_csv_1 : forall ctx, exec_csv ctx [1] = csv_sat ctx 1.
+Proof. intro. rewrite <- enc_1. apply exec_csv_enc. reflexivity. Qed.
+Lemma exec_csv_16 : forall ctx, exec_csv ctx [16] = csv_sat ctx 16.
+Proof. intro. rewrite <- enc_16. apply exec_csv_enc. reflexivity. Qed.
+
+Ltac len_ok := first [ assumption | lia | (cbn [blen length]; lia) |
+  match goal with H : blen ?k = _ |- blen ?k <= _ => rewrite H; lia end ].
+
+Ltac bud_ok := unfold tap_budget, wit_size; cbn [fold_right]; lia.
+Ltac nonnil := match goal with H : blen ?k = _ |- is_nil ?k = false =>
+  destruct k; [cbn in H; lia | reflexivity] end.
+
+Ltac wit_ok := repeat (apply Forall_cons; [cbn beta; first [len_ok | (vm_compute; discriminate)]|]); apply Forall_nil.
+
+Ltac scbn :=
+  cbn [step exec skip executing push set_stk stk cnd budget verify_top of_bool
+       pop_if_bool N.eqb Pos.eqb is_nil negb andb orb as_bool];
+  unfold set_stk, push;
+  cbn [stk cnd budget].
+
+Ltac srw :=
+  repeat first
+   [ rewrite bytes_eqb_refl
+   | match goal with |- context [bytes_eqb ?a ?b] =>
+       let v := eval vm_compute in (bytes_eqb a b) in
+       match v with
+       | true => change (bytes_eqb a b) with true
+       | false => change (bytes_eqb a b) with false
+       end
+     end
+   | rewrite exec_csv_1
+   | rewrite exec_csv_16
+   | rewrite exec_csv_enc by assumption
+   | rewrite exec_cltv_enc by assumption
+   | progress rewrite ?enc_0, ?enc_1, ?enc_2, ?enc_16, ?enc_32, ?blen_nil
+   | match goal with
+     | H : verify ?sc ?k ?s = true |- context [checksig ?sc SegV0 ?k ?s ?b] =>
+       rewrite (checksig_v0_valid sc k s b H)
+     | H : verify ?sc ?k ?s = true |- context [checksig ?sc Tapscript ?k ?s ?b] =>
+       rewrite (checksig_tap_valid sc k s b H) by (first [assumption | lia | bud_ok | nonnil])
+     | H1 : verify ?sc ?k1 ?s1 = true, H2 : verify ?sc ?k2 ?s2 = true
+       |- context [checkmultisig ?sc SegV0 ([2] :: ?k2 :: ?k1 :: [2] :: ?s2 :: ?s1 :: [] :: ?rest)] =>
+       rewrite (checkmultisig_2of2 sc k1 k2 s1 s2 rest H1 H2)
+     | H : checksig ?sc ?v ?k ?s ?b = _ |- context [checksig ?sc ?v ?k ?s ?b] => rewrite H
+     | H : blen ?p = _ |- context [blen ?p] => rewrite H
+     | H : ?x = true |- context [?x] => rewrite H
+     | H : ?x = false |- context [?x] => rewrite H
+     end ].
+
+Ltac solve_step :=
+  first
+  [ apply step_push_data; [reflexivity | len_ok]
+  | apply step_push_data_skip; [reflexivity | len_ok]
+  | apply step_push_num; [reflexivity | assumption]
+  | apply step_push_num_skip; reflexivity
+  | repeat (scbn; srw); reflexivity ].
+
+Ltac solve_fail := repeat (scbn; srw); reflexivity.
+
+Ltac run_step1 :=
+  first [ erewrite run_cons_ok; [ | solve_step ]
+        | rewrite run_cons_fail; [ | solve_fail ]
+        | rewrite run_cons_unsupp; [ | solve_fail ] ];
+  rewrite ?enc_0, ?enc_1, ?enc_2, ?enc_16, ?enc_32.
+
+(* runs the script as far as the hypotheses decide; stops (leaving `run` on the
+   remaining instructions) at the first step they do not decide *)
+Ltac run_steps :=
+  repeat run_step1;
+  lazymatch goal with
+  | |- context [run _ _ _ _ (_ :: _) _] => idtac
+  | |- _ => cbn [run]
+  end.
+
